@@ -249,8 +249,13 @@ def execute(scenario, tape):
             st['objs'].append((e, lab))
             return lab
 
-        def raise_origin():
+        def raise_origin(persistent=False):
             if st['fired']:
+                if persistent and not st.get('first_session_over') and \
+                        len(w.net.conns) == 1:
+                    # a listener that is simply broken fails every time it
+                    # is called during the session (not only once)
+                    raise CLS[scenario['exc0']]('origin again')
                 return
             st['fired'] = True
             if scenario.get('origin_delay_us'):
@@ -311,9 +316,9 @@ def execute(scenario, tape):
             conn.register_packet_listener(lambda p: raise_origin(), trigger,
                                           early=(origin == 'early-listener'))
         elif origin == 'outgoing-listener':
-            conn.register_packet_listener(lambda p: raise_origin(),
-                                          sb.play.KeepAlivePacket,
-                                          outgoing=True)
+            conn.register_packet_listener(
+                lambda p: raise_origin(persistent=True),
+                sb.play.KeepAlivePacket, outgoing=True)
         conn.register_packet_listener(
             lambda p: st.__setitem__('in_play', True),
             cb.login.LoginSuccessPacket)
@@ -329,6 +334,7 @@ def execute(scenario, tape):
             else:
                 st['call'] = w.api('connect', conn.connect)
             st['quiet1'] = w.wait_until(quiet, 60000000)
+            st['first_session_over'] = True
             st['exception_attr'] = getattr(conn, 'exception', None)
             st['exc_info_attr'] = getattr(conn, 'exc_info', None)
             st['conns_before_again'] = len(w.net.conns)
